@@ -250,7 +250,7 @@ def check_start_of_day(ctx, zone, zid, W, d, cal, kp=""):
         rn = gen.inst_ns(r.to_instant())
         if best is None:
             ctx.V(f"C05:{kp}start-of-day-returned-for-skipped-day", f"{zid} day {d}: at_start_of_day returned {rn} although no instant carries that local date", case, rn)
-        elif rn != best or r.date != date:
+        elif rn != best or r.date != date or r.calendar is not cal or r.zone is not zone:
             ctx.V(f"C05:{kp}start-of-day", f"{zid} day {d} ({cal.id}): at_start_of_day = {rn} ({r.local_date_time!r}); earliest instant with that local date is {best}", case, rn, best)
         r2 = date.at_start_of_day_in_zone(zone)
         if gen.inst_ns(r2.to_instant()) != rn:
@@ -393,6 +393,8 @@ def run(ctx, shard):
                 if big or rng.random() < 0.25:
                     for dd in (-1, 0, 1):
                         check_start_of_day(ctx, zone, zid, W, (t + wa * NS) // DAY + dd, iso if rng.random() < 0.8 else rng.choice(cals))
+                        if big or rng.random() < 0.3:      # the same day named in another calendar: the result stays in the calendar of the date asked for
+                            check_start_of_day(ctx, zone, zid, W, (t + wa * NS) // DAY + dd, rng.choice(cals))
             # the first and the last local day of the supported range (the sentinels for "before/after all time" live next to them)
             edge_Ls = []
             if seg[0][0] is None and si == 0:
